@@ -97,6 +97,15 @@ type Sched struct {
 	moves   int64
 	maxStep int
 	trace   bool
+	// releasePoints makes lock releases scheduling points too.
+	releasePoints bool
+}
+
+// releasePoint is called by the primitives after a lock has been released.
+func (s *Sched) releasePoint(t *thread, obj any) {
+	if s.releasePoints {
+		s.point(t, opTry, obj)
+	}
 }
 
 var active ratomic.Pointer[Sched]
@@ -261,6 +270,12 @@ type Options struct {
 	MaxSteps int
 	// Trace records call sites for every point (slower).
 	Trace bool
+	// ReleasePoints adds a scheduling point after every lock release.  With
+	// points only before acquisitions, another thread can never run between a
+	// release and the unsynchronised code that follows it; that is only
+	// equivalent when that code touches no shared state.  Harnesses that want
+	// to observe the effect of such (racy) accesses switch this on.
+	ReleasePoints bool
 	// StuckTimeout: a running thread that reaches no point for this long is
 	// an engine error.
 	StuckTimeout time.Duration
@@ -304,7 +319,7 @@ func RunOne(mk func() Body, prefix []int, opt Options) (*Result, string) {
 	if body.Cleanup != nil {
 		defer body.Cleanup()
 	}
-	s := &Sched{back: make(chan *thread), prefix: prefix, res: &Result{}, trace: opt.Trace, maxStep: opt.MaxSteps}
+	s := &Sched{back: make(chan *thread), prefix: prefix, res: &Result{}, trace: opt.Trace, maxStep: opt.MaxSteps, releasePoints: opt.ReleasePoints}
 	if s.maxStep == 0 {
 		s.maxStep = 20000
 	}
